@@ -81,6 +81,43 @@ CLAIMS = {
          "Partial: the assembly and intrinsics CODE is not modelled instruction by instruction (no ISA semantics installed): "
          "the algorithm is proved, the code is tied by correspondence only. SSE2's blend emulation is not proved equal to lane selection.",
          "Coq proof of the kernel algorithms + kernel-level correspondence of every flavour"),
+ "C04": ("Coq theorems (Props/C04.v): every observation of the one-shot functions, of call histories, of extended-output "
+         "operation sequences and of subtree chaining values is equal for any two platform records satisfying PlatformOK "
+         "(corollaries of C01/C02/C03/C09), and PlatformOK holds for the modelled SSE2/SSE4.1/AVX2/AVX-512 kernels (C05) and "
+         "for portable kernels at every degree. Correspondence: one case file and one expected-output set against 3 Rust "
+         "build flavours (assembly, prefer_intrinsics, pure) x every platform forced through the hook x debug/release; "
+         "thorough adds the stock no_* feature builds; the kernel implementations actually exercised are read back from "
+         "the build scripts' output and all four (asm / Rust intrinsics / C AVX-512 intrinsics / portable) must be reached.",
+         "Partial: build.rs and cfg selection are observed, not modelled; a no-default-features build cannot be driven by the std-based harness.",
+         "Coq corollary of the spec-equality theorems + multi-flavour correspondence"),
+ "C07": ("Coq theorems (Props/C07.v): every index / slice bound / ArrayVec push of the modelled glue is an assert of the model, "
+         "so the Ok of C01/C02/C03/C09 states that no index is out of range for any input; kernel-model footprints (exactly "
+         "one 32-byte CV per input, exactly 64 bytes per xof block, fill writes exactly n bytes). Harness (not a proof): every "
+         "kernel call of C05 and C-hasher histories with each buffer flush against a PROT_NONE page at the high and the low "
+         "end, contiguous and separately allocated inputs, canaries around outputs, an assembly trampoline checking rbx, rbp, "
+         "r12-r15 (and rsi, rdi, xmm6-15 for ms_abi), rsp and DF, ASan/UBSan builds in the thorough tier; Rust kernels with "
+         "guard pages too. One genuine finding is recorded in known_findings.txt (assembly hash_many over-read).",
+         "Partial: the loads/stores executed inside assembly and intrinsics are not verified (no ISA semantics available): "
+         "the model states footprints, the harness checks them on the sampled calls.",
+         "Coq proof of index bounds and footprints on the models + guard-page / register-sentinel / sanitizer harness"),
+ "C08": ("Coq theorems (Props/C08.v): in the split node of compress_subtree_wide the two halves write disjoint slot ranges of "
+         "the cv_array; every interleaving of their write events (left-first, right-first, any concurrent schedule) leaves "
+         "the same memory, so the parent layer sees exactly left ++ right whatever the schedule. Correspondence: the scripted "
+         "Join hook with ALL 3^k assignments of {left-first, right-first, two threads} for split trees with k <= 5 nodes and "
+         "random scripts up to 2 MiB, real update_rayon under pools of 1/2/3/8/16 threads, the C library's TBB seam "
+         "implemented by the harness with the same scripts (pthreads), TSan build in the thorough tier; all compared with "
+         "serial update by continuation and with the model.",
+         "Partial: rayon, TBB, the hardware memory model and Rust's aliasing guarantees for safe code are trusted, not modelled.",
+         "Coq proof (disjoint writes commute; induction over interleavings) + exhaustive-schedule correspondence"),
+ "C18": ("Coq theorems (Props/C18.v): in any interleaving of per-instance operation sequences each instance observes exactly "
+         "what it observes alone (operations act on one instance; the detection cache only moves from unknown to the one "
+         "detected value); the list of writable global symbols found by nm in the freshly built C objects and the blake3 "
+         "rlib is GENERATED into Coq on every run and must equal the detection caches (a new static breaks the obligation). "
+         "Correspondence: fresh processes starting 2..16 threads on a barrier with the cache untouched (detection races), "
+         "each thread running a full history on its own instances (Rust and C), compared with the sequential model results; "
+         "C side under TSan in the thorough tier.",
+         "Partial: real interleavings are sampled by the OS; 'touches only its instance' is tied by the symbol scan and Rust ownership, not by a memory model.",
+         "Coq proof (commutation / projection of interleavings) + translated symbol table + threaded correspondence"),
  "C02": ("Coq theorems (Props/C02.v) about the Hasher model; correspondence on random histories, exhaustive short 2-splits, "
          "Write/update_reader, all modes, every forced SIMD level.",
          "Proved: any update sequence over any number of instances with clone/reset/finalize/finalize_xof/count interleaved "
